@@ -650,6 +650,23 @@ func (s *ResettableKeystore) handleResetOp(op resetOp) {
 	}
 
 	if op.success {
+		// Persist the new active namespace marker before swapping: if it cannot
+		// be written, the current namespace stays active both in memory and on
+		// disk, and the (complete but unused) alternate is torn down below.
+		// Swapping first would serve the new namespace now but reopen on the
+		// old one, which the teardown below has emptied.
+		activeValue := []byte{1 - s.activeNamespace}
+		if err := s.metaDs.Put(ctx, activeNamespaceKey, activeValue); err != nil {
+			s.logger.Errorf("keystore: aborting swap, failed to persist active namespace marker: %v", err)
+			op.success = false
+		}
+	}
+	if op.success {
+		// Sync to ensure marker is persisted
+		if err := s.metaDs.Sync(ctx, activeNamespaceKey); err != nil {
+			s.logger.Warnf("keystore: failed to sync active namespace marker: %v", err)
+		}
+
 		// Swap the active datastore.
 		oldDs := s.ds
 		s.ds = s.altDs
@@ -659,17 +676,6 @@ func (s *ResettableKeystore) handleResetOp(op resetOp) {
 		// Toggle the active namespace index
 		s.activeNamespace = 1 - s.activeNamespace
 		s.logger.Infof("keystore: swapped active namespace to %d (size=%d)", s.activeNamespace, s.size)
-		// Persist the new active namespace
-		activeValue := []byte{s.activeNamespace}
-
-		// Write the active namespace marker
-		if err := s.metaDs.Put(ctx, activeNamespaceKey, activeValue); err != nil {
-			s.logger.Errorf("keystore: failed to persist active namespace marker: %v", err)
-		}
-		// Sync to ensure marker is persisted
-		if err := s.metaDs.Sync(ctx, activeNamespaceKey); err != nil {
-			s.logger.Warnf("keystore: failed to sync active namespace marker: %v", err)
-		}
 	}
 	// Tear down the unused datastore (old active after swap, or partial
 	// alt on failure).
